@@ -111,7 +111,21 @@ func (vc *VC) header(flags map[int]bool) string {
 }
 
 func (vc *VC) slicedAsserts(sl *slicer, o *Oblig) string {
+	return vc.slicedAssertsMode(sl, o, false)
+}
+
+// focused: for the inductive step of a labelled loop invariant, leave out the
+// quantified assumptions of the *other* labelled invariants of the unit (a smaller,
+// still sound hypothesis set; the complete sets are tried afterwards).
+func (vc *VC) slicedAssertsMode(sl *slicer, o *Oblig, focused bool) string {
 	inc := sl.slice(o.Upto, o.Guard, o.Goal)
+	if focused && o.Kind == "invariant" && o.Label != "" && strings.Contains(o.Name, " step:") {
+		for i, lbl := range vc.invAssume {
+			if i < len(inc) && inc[i] && lbl != o.Label && strings.Contains(vc.asserts[i], "(forall ") {
+				inc[i] = false
+			}
+		}
+	}
 	var sb strings.Builder
 	for i, a := range vc.asserts {
 		if inc[i] {
@@ -124,7 +138,7 @@ func (vc *VC) slicedAsserts(sl *slicer, o *Oblig) string {
 }
 
 func (vc *VC) slicedQuery(sl *slicer, o *Oblig, k int) string {
-	return fmt.Sprintf("(push 1)\n%s(assert %s)\n(assert (not %s))\n(echo \"@@%d\")\n(check-sat)\n(pop 1)\n", vc.slicedAsserts(sl, o), o.Guard, o.Goal, k)
+	return fmt.Sprintf("(push 1)\n%s(assert %s)\n(assert (not %s))\n(echo \"@@%d\")\n(check-sat)\n(pop 1)\n", vc.slicedAssertsMode(sl, o, true), o.Guard, o.Goal, k)
 }
 
 func obligQuery(o *Oblig, k int) string {
